@@ -220,6 +220,14 @@ def bounds():
     for n in (9, 10, 11, 12, 30):
         yield ('bounds', ['%d. i%d' % (i, i) for i in range(1, n + 1)], li('ol', ['i%d' % i for i in range(1, n + 1)]), dict(what='items', n=n), False)
         yield ('bounds', ['- i%d' % i for i in range(1, n + 1)], li('ul', ['i%d' % i for i in range(1, n + 1)]), dict(what='bullet items', n=n), False)
+    # numbers that jump, repeat or carry leading zeros, with a second block in the wide item
+    for markers in (('1.', '10.'), ('5.', '5.', '100.'), ('007.',), ('9.', '10.', '11.'), ('1)', '123456789)')):
+        lines, items = [], []
+        for k, m in enumerate(markers):
+            lines += ['%s i%d' % (m, k), '', ' ' * (len(m) + 1) + 'c%d' % k] + ([''] if k < len(markers) - 1 else [])
+            items.append('<li>\n<p>i%d</p>\n<p>c%d</p>\n</li>\n' % (k, k))
+        st = int(markers[0][:-1])
+        yield ('bounds', lines, '<ol%s>\n%s</ol>\n' % ('' if st == 1 else ' start="%d"' % st, ''.join(items)), dict(what='jumping numbers', markers=markers), False)
     # tables with many columns / rows
     for ncol in (9, 10, 11, 17):
         al = [(None, '---', 'left'), (0, ':-:', 'center'), (1, '--:', 'right')]
@@ -263,7 +271,23 @@ def bounds():
         yield ('bounds', ['    ' + line], '<pre><code>%s\n</code></pre>\n' % esc(line), dict(what='indent 4', line=line), False)
 
 
-FAMILIES = dict(bounds=bounds, list_tab=list_tabs, lazy=lazy_lines, fence=fences, atx=atx, setext=setext, indented=indented, html=html_blocks, table=tables, para=paragraphs, hr=breaks)
+def lazy_then_block():
+    """a list item / quote continued by one or more lazy lines and then, without a blank line, a block that interrupts the
+    paragraph: the container ends there (checked for every lazy line, not only the first)"""
+    inter = [('# h', '<h1>h</h1>\n'), ('***', '<hr />\n'), ('```', '<pre><code></code></pre>\n'), ('<div>', '<div>\n'),
+             ('| a | b |\n|---|---|', '<table>\n<thead>\n<tr>\n<th align="left">a</th>\n<th align="left">b</th>\n</tr>\n</thead>\n<tbody>\n</tbody>\n</table>\n')]
+    for nlazy in (0, 1, 2, 3):
+        lz = ['l%d' % i for i in range(nlazy)]
+        text = '\n'.join(['w'] + lz)
+        for line, html in inter:
+            yield ('lazy-then-block', ['- w'] + lz + line.split('\n'), '<ul>\n<li>%s</li>\n</ul>\n%s' % (text, html), dict(container='item', lazy=nlazy, then=line), False)
+            yield ('lazy-then-block', ['7. w'] + lz + line.split('\n'), '<ol start="7">\n<li>%s</li>\n</ol>\n%s' % (text, html), dict(container='ordered item', lazy=nlazy, then=line), False)
+            yield ('lazy-then-block', ['> w'] + lz + line.split('\n'), '<blockquote>\n<p>%s</p>\n</blockquote>\n%s' % (text, html), dict(container='quote', lazy=nlazy, then=line), False)
+        yield ('lazy-then-block', ['- w'] + lz + ['> q'], '<ul>\n<li>%s</li>\n</ul>\n<blockquote>\n<p>q</p>\n</blockquote>\n' % text, dict(container='item', lazy=nlazy, then='> q'), False)
+        yield ('lazy-then-block', ['> w'] + lz + ['- i'], '<blockquote>\n<p>%s</p>\n</blockquote>\n<ul>\n<li>i</li>\n</ul>\n' % text, dict(container='quote', lazy=nlazy, then='- i'), False)
+
+
+FAMILIES = dict(lazy_then_block=lazy_then_block, bounds=bounds, list_tab=list_tabs, lazy=lazy_lines, fence=fences, atx=atx, setext=setext, indented=indented, html=html_blocks, table=tables, para=paragraphs, hr=breaks)
 CONTEXTS = ['alone', 'then-paragraph', 'after-paragraph', 'in-quote', 'in-list-item', 'then-paragraph-directly']
 
 
@@ -271,6 +295,8 @@ def in_context(case, ctx):
     """-> (markdown text, expected html, 0-based line of the leaf's first line) or None if the context does not apply"""
     fam, lines, html, label, self_ending = case
     has_tab = any('\t' in l for l in lines)
+    if fam in ('list-tab', 'lazy', 'bounds', 'lazy-then-block') and ctx not in ('alone', 'after-paragraph'):
+        return None         # whole small documents of their own; placed at top level only
     if ctx == 'alone':
         return '\n'.join(lines) + '\n', html, 0
     if ctx == 'then-paragraph':
@@ -284,8 +310,6 @@ def in_context(case, ctx):
         return '\n'.join(lines + ['after']) + '\n', html + '<p>after</p>\n', 0
     if ctx == 'after-paragraph':
         return '\n'.join(['before', ''] + lines) + '\n', '<p>before</p>\n' + html, 2
-    if fam in ('list-tab', 'lazy', 'bounds') and ctx not in ('alone', 'after-paragraph'):
-        return None         # whole small documents of their own; placed at top level only
     if ctx == 'in-quote':
         if fam == 'setext' or has_tab or fam == 'indented-tab':
             return None
